@@ -317,13 +317,14 @@ class C15(Prop):
         if case.get("warm"):
             # the same Event objects (same ids, same instants) went through the function before with other durations, and the
             # pieces it returned then are what a chained call would be handed
-            warm_up(lambda: union_no_overlap(e1, e2), e1 + e2)
             try:
                 first = union_no_overlap(e1, e2)
                 union_no_overlap(e1, first)
                 union_no_overlap(first, e2)
             except Exception:  # noqa: BLE001 - discarded
                 pass
+            # ... and, immediately before the measured call, the same list objects held other contents
+            warm_up(lambda: union_no_overlap(e1, e2), e1 + e2)
         try:
             r = union_no_overlap(e1, e2)
         except (AttributeError, TypeError, IndexError, ValueError, KeyError) as ex:
